@@ -53,6 +53,7 @@ type Report struct {
 	extra    map[string]interface{}
 	start    time.Time
 	verifDir string
+	lent     bool // this report is a lender's run inside Borrow: its own borrows are skipped (C01 and C02 borrow from each other)
 }
 
 func NewReport(prop, tier, verifDir string, p *Program) *Report {
@@ -368,7 +369,11 @@ func (r *Report) Borrow(from string, pick func(o *Ob) (rule string, ok bool)) in
 		r.Unresolved(r.Prop+".borrow", "rules of "+from)
 		return 0
 	}
+	if r.lent {
+		return 0
+	}
 	sr := NewReport(from, r.Tier, r.verifDir, r.P)
+	sr.lent = true
 	func() {
 		defer func() {
 			if e := recover(); e != nil {
